@@ -297,6 +297,9 @@ enum Case {
     Output { cb: &'static str, large: bool, plan: String, kind: &'static str },
     Crash { cb: &'static str, large: bool, k: usize },
     Fsize { cb: &'static str, limit: u64 },
+    /// nobody reads the log any more: stdout (1), stderr (2) or both (3) are pipes whose reading end is closed; alone, or
+    /// together with an unreadable block (blk file of height 2 removed)
+    Streams { cb: &'static str, which: u8, input_fault: bool },
 }
 
 pub fn run() -> Report {
@@ -374,6 +377,13 @@ pub fn run() -> Report {
             let _ = thorough;
         }
     }
+    for cb in ["csvdump", "unspentcsvdump", "balances"] {
+        for which in 1..=3u8 {
+            for input_fault in [false, true] {
+                cases.push(Case::Streams { cb, which, input_fault });
+            }
+        }
+    }
     // 2. output faults: bound 1 complete; bound 2 on the small world
     for ((cb, is_large), seq) in &calls {
         for c in seq {
@@ -419,7 +429,7 @@ pub fn run() -> Report {
             l += step;
         }
     }
-    rep.rule = "three enumerations on the real binary for csvdump / unspentcsvdump / balances: (1) input faults: every height x {blk file removed, emptied, truncated at EVERY byte, index offset past EOF, offset into the last 3 bytes}, also with the faulted block first / inner / last of a --start/--end range; (2) output faults with deviation bound 1 (complete): at EVERY intercepted open/write/rename/close call on the dump folder every answer of {ENOSPC, EIO, EPIPE, EDQUOT, EFBIG, EAGAIN, EBADF, ENOMEM, ETIMEDOUT, ESTALE, EACCES, EROFS as applicable to the call, 1-byte short write then ENOSPC, n-1 short write, EINTR}, bound 2 (benign deviation followed by an error or a crash) on the small world, plus a byte-granular RLIMIT_FSIZE sweep; (3) crash points: process killed (_exit) immediately before EVERY intercepted call and after the last one; every failed or killed run on the small world is followed by an undisturbed shorter run (-e 2) in the same folder, which must be complete and identical to a fresh-folder run; small world (all writes at completion) and large world (4 MB buffers overflow mid-run); non-trivial = distinct fault / crash case".into();
+    rep.rule = "three enumerations on the real binary for csvdump / unspentcsvdump / balances (plus: stdout / stderr / both without a reader, alone and together with an unreadable block): (1) input faults: every height x {blk file removed, emptied, truncated at EVERY byte, index offset past EOF, offset into the last 3 bytes}, also with the faulted block first / inner / last of a --start/--end range; (2) output faults with deviation bound 1 (complete): at EVERY intercepted open/write/rename/close call on the dump folder every answer of {ENOSPC, EIO, EPIPE, EDQUOT, EFBIG, EAGAIN, EBADF, ENOMEM, ETIMEDOUT, ESTALE, EACCES, EROFS as applicable to the call, 1-byte short write then ENOSPC, n-1 short write, EINTR}, bound 2 (benign deviation followed by an error or a crash) on the small world, plus a byte-granular RLIMIT_FSIZE sweep; (3) crash points: process killed (_exit) immediately before EVERY intercepted call and after the last one; every failed or killed run on the small world is followed by an undisturbed shorter run (-e 2) in the same folder, which must be complete and identical to a fresh-folder run; small world (all writes at completion) and large world (4 MB buffers overflow mid-run); non-trivial = distinct fault / crash case".into();
     rep.bound = json!({"cases": cases.len(), "intercepted_calls": calls.iter().map(|((cb, l), v)| (format!("{}{}", cb, if *l { "/large" } else { "/small" }), json!(v.len()))).collect::<serde_json::Map<_, _>>(), "deviation_bound": "1 complete, 2 on the small world (benign then error/crash)"});
     rep.not_covered = vec!["power-loss durability (fsync ordering) is not claimed by the property".into(), "SIGKILL at instants between two syscalls is equivalent to the crash point before the later syscall (the directory cannot change in between)".into()];
     let parts = par_fold(
@@ -502,6 +512,32 @@ pub fn run() -> Report {
                     }
                     if let Some((sig, d)) = bad {
                         acc.disagree(&format!("{}:{}", sig, fault.split('@').next().unwrap_or("")), format!("{:?}: {}", c, d), replay_case(&world, &spec, json!({"must": "fail at this height, no final-named file"}), &r, &wk.dir));
+                    }
+                }
+                Case::Streams { cb, which, input_fault } => {
+                    let mut world = small.clone();
+                    if *input_fault {
+                        world.files.remove(&2);
+                    }
+                    let mut spec = RunSpec::new("bitcoin", cb);
+                    if which & 1 != 0 {
+                        spec.env.push(("VERIF_STDOUT_GONE".into(), "1".into()));
+                    }
+                    if which & 2 != 0 {
+                        spec.env.push(("VERIF_STDERR_GONE".into(), "1".into()));
+                    }
+                    let r = match wk.world_run(&world, &spec) {
+                        Ok(r) => r,
+                        Err(m) => return acc.machinery(m),
+                    };
+                    acc.count("log-stream-without-reader", 1);
+                    // exit 0 only with complete output; a failed run leaves no final-named file; an unreadable block is never a success
+                    let mut bad = judge(&r, &reference[&(*cb, false)], "input-fault", false);
+                    if bad.is_none() && *input_fault && r.code == Some(0) {
+                        bad = Some(("input-fault-not-detected".into(), "exit 0 although block 2 cannot be read".into()));
+                    }
+                    if let Some((sig, d)) = bad {
+                        acc.disagree(&format!("{}:log-stream-gone", sig), format!("{:?}: {}", c, d), replay_case(&world, &spec, json!({"must": "exit 0 only with complete output"}), &r, &wk.dir));
                     }
                 }
                 Case::Output { cb, large: lg, plan, kind } => {
